@@ -254,7 +254,8 @@ def check_utf16_helper(ctx):
     prog2 = ir.load_units([os.path.join(ir.REPO, 'src', 'String.cpp')])
     f = C08.fn1(prog2, 'asl::utf16toUtf8')
     ctx.analysed(f)
-    C08.encoder_regions(ctx, prog2, f, True)
+    if not C08._guarded_abs(ctx, f, lambda: C08.abs_encoder(ctx, prog2, f, True)):
+        C08.encoder_regions(ctx, prog2, f, True)
 
 
 def check_accept(ctx, prog):
